@@ -98,8 +98,18 @@ def generate(ctx):
                     z = int(f) + r.choice([-1, 0, 0, 1])
                     b = ('i', z) if gen.I64_MIN <= z <= gen.I64_MAX else (('u', z) if 0 <= z <= gen.U64_MAX else b)
         ctx.add('num_cmp %s %s' % (ntext(a), ntext(b)), meta=('cmp', a, b))
-        if r.random() < 0.2:
-            ctx.add('num_eq %s %s' % (ntext(a), ntext(b)), meta=('eq', a, b))
+        ctx.add('num_eq %s %s' % (ntext(a), ntext(b)), meta=('eq', a, b))
+    # deterministic: a negative i64 against the u64 with the same 64-bit pattern (two's-complement twins), and signed
+    # zeros / NaNs against each other -- `==` and `cmp` are separate impls and must agree (a seeded change made `==`
+    # compare bit patterns across Int64 / UInt64)
+    twins = []
+    for k in [1, 2, 127, 128, 129, 255, 256, 32768, 65536, 2 ** 31, 2 ** 32, 2 ** 53, 2 ** 62, 2 ** 63 - 1, 2 ** 63]:
+        twins += [(('i', -k), ('u', 2 ** 64 - k)), (('u', 2 ** 64 - k), ('i', -k))]
+    zeros = [('d', gen.float_to_bits(0.0)), ('d', gen.float_to_bits(-0.0)), ('i', 0), ('u', 0)]
+    twins += [(x, y) for x in zeros for y in zeros]
+    for a, b in twins:
+        ctx.add('num_cmp %s %s' % (ntext(a), ntext(b)), meta=('cmp', a, b))
+        ctx.add('num_eq %s %s' % (ntext(a), ntext(b)), meta=('eq', a, b))
     ntrip = ctx.scale(1500, 40000)
     trips = []
     for _ in range(ntrip):
